@@ -162,7 +162,7 @@ Lemma cf_step (fn' : ty) (ins : list ty) (v : bool) (outs : list ty) (m : bool) 
   get_list self F = Some (pre ++ x :: r) ->
   List.length pre' = List.length pre ->
   get_list cur F = Some (pre' ++ x :: r) ->
-  (forall cols st, rec cols x st = Some (visit c cols x st)) ->
+  rec cols x er = Some (visit c cols x er) ->
   cf_body j (mkG B cur cols er) k =
   let '(t, x', er1) := visit c cols x er in
   let pin := param_ty ins v m j in
@@ -223,7 +223,7 @@ Lemma cf_loop (fn' : ty) (ins : list ty) (v : bool) (outs : list ty) (m : bool) 
   get_list self F = Some (pre ++ rest) ->
   List.length pre' = List.length pre ->
   get_list cur F = Some (pre' ++ rest) ->
-  (forall x, In x rest -> forall cols st, rec cols x st = Some (visit c cols x st)) ->
+  seq_ok c rec cols rest er ->
   range_loop cf_body (List.length rest) (List.length pre) (mkG B cur cols er) k =
   let '(rest', er', ok) := CheckProofs.vargs c cols (param_ty ins v m) (List.length pre) rest er in
   if ok then k (RNormal (mkG B (set_list cur F (pre' ++ rest')) cols er'))
@@ -233,6 +233,7 @@ Proof.
   induction rest as [|x r IH]; intros pre pre' cur cols er k Hk Har Hself Hlen Hcur Hrec.
   - cbn [List.length CheckProofs.vargs]. rewrite range_loop_O. rewrite (set_list_same _ _ _ Hcur). reflexivity.
   - cbn [List.length CheckProofs.vargs]. rewrite range_loop_S.
+    cbn [seq_ok] in Hrec. destruct Hrec as [Hx Hr].
     assert (Hin : (v && (nin - 1 <=? List.length pre)%nat) = false -> (List.length pre + offn < List.length ins)%nat).
     { intros Cnd. destruct v.
       - cbn [andb] in Cnd. apply Nat.leb_gt in Cnd. unfold nin, offn in *. destruct m; lia.
@@ -242,10 +243,9 @@ Proof.
     unfold B, nin, offn in IH |- *.
     match goal with |- cf_body _ _ ?K = _ =>
       rewrite (cf_step fn' ins v outs m name x r pre pre' cur cols er K
-                 (fun vs en1 en2 cu cl e => Hk vs en1 en2 cu cl e) Hnil Hund Hv Hin Hself Hlen Hcur
-                 (fun cl st0 => Hrec x (or_introl eq_refl) cl st0))
+                 (fun vs en1 en2 cu cl e => Hk vs en1 en2 cu cl e) Hnil Hund Hv Hin Hself Hlen Hcur Hx)
     end.
-    destruct (visit c cols x er) as [[t x'] er1]. cbv zeta.
+    destruct (visit c cols x er) as [[t x'] er1] eqn:V. try rewrite V in Hr. cbn [snd] in Hr. cbv zeta.
     unfold arg_rule, cf_result.
     set (pin := param_ty ins v m (List.length pre)).
     set (t2 := if is_arith x then pin else t).
@@ -256,8 +256,7 @@ Proof.
     { rewrite <- app_cons_assoc. eapply get_set_list. exact Hcur. }
     assert (Har' : v = false -> (List.length (pre ++ [x]) + List.length r)%nat = nin).
     { intros E. rewrite length_snoc. specialize (Har E). cbn [List.length] in Har. lia. }
-    specialize (IH (pre ++ [x]) (pre' ++ [a2]) (set_list cur F (pre' ++ a2 :: r)) cols er1 k Hk Har' Hself Hlen' Hcur'
-                   (fun y Hy => Hrec y (or_intror Hy))).
+    specialize (IH (pre ++ [x]) (pre' ++ [a2]) (set_list cur F (pre' ++ a2 :: r)) cols er1 k Hk Har' Hself Hlen' Hcur' Hr).
     rewrite length_snoc in IH.
     destruct (is_nil_ty t2).
     + rewrite IH. destruct (CheckProofs.vargs c cols (param_ty ins v m) (S (List.length pre)) r er1) as [[r' er2] ok'].
